@@ -213,6 +213,9 @@ class DLPOLY_PairTabulationFactory(PairTabulationFactory):
     cutoffs = super(DLPOLY_PairTabulationFactory, self).extract_cutoffs(cp)
     if cutoffs.nr % 4 != 0:
       raise ConfigurationException("The number of rows in a DL_POLY TABLE file needs to be divisible by 4. Number of rows specified = {} ".format(cutoffs.nr))
+    if cutoffs.nr < 8:
+      # the mesh resolution written to the file is cutoff/(rows - 4)
+      raise ConfigurationException("A DL_POLY TABLE file needs at least 8 rows. Number of rows specified = {} ".format(cutoffs.nr))
     return cutoffs
 
 class ADP_EAMTabulationFactory(EAMTabulationFactory):
